@@ -10,6 +10,7 @@ import warnings
 from typing import Match, Any, Iterator, cast
 
 UNICODE_REPLACEMENT_CHAR = 0xFFFD
+MAX_UNICODE = 0x10FFFF
 
 # Simple pseudo classes that take no parameters
 PSEUDO_SIMPLE = {
@@ -247,7 +248,7 @@ def css_unescape(content: str, string: bool = False) -> str:
 
         if m.group(1):
             codepoint = int(m.group(1)[1:], 16)
-            if codepoint == 0:
+            if codepoint == 0 or codepoint > MAX_UNICODE:
                 codepoint = UNICODE_REPLACEMENT_CHAR
             value = chr(codepoint)
         elif m.group(2):
